@@ -50,6 +50,46 @@ def gc_barrier(ctx, r):
     r.count("heap payload stores in step()", n, 5, VM)
 
 
+GC_STATES = ("Idle", "Marking", "Sweeping")
+
+
+def state_eval(e, state, lets, depth=0):
+    """Evaluate a boolean expression over `vm.gc_state` for one collector state."""
+    if e is None or depth > 6:
+        raise ValueError("unsupported expression")
+    k = e["k"]
+    if k == "Lit" and e.get("t") == "bool":
+        return e["v"] == "true"
+    if k == "Path":
+        if e["p"] in lets:
+            return state_eval(lets[e["p"]], state, lets, depth + 1)
+        raise ValueError("free variable " + e["p"])
+    if k == "Unary" and e["op"] == "!":
+        return not state_eval(e["e"], state, lets, depth + 1)
+    if k == "Binary" and e["op"] in ("&&", "||"):
+        a = state_eval(e["a"], state, lets, depth + 1)
+        b = state_eval(e["b"], state, lets, depth + 1)
+        return (a and b) if e["op"] == "&&" else (a or b)
+    if k == "Binary" and e["op"] in ("==", "!="):
+        sides = [q.show(e["a"]), q.show(e["b"])]
+        st = next((q.last_seg(s.split("{")[0]) for s in sides if "GcState::" in s), None)
+        other = next((s for s in sides if "GcState::" not in s), "")
+        if st is None or "gc_state" not in other:
+            raise ValueError("comparison " + q.show(e))
+        return (st == state) if e["op"] == "==" else (st != state)
+    if k == "Match" and "gc_state" in q.show(e["e"]):
+        for a in e["arms"]:
+            heads = [q.last_seg(h) for h in q.pat_heads(a["pat"])]
+            if state in heads or "_" in heads:
+                return state_eval(a["body"], state, lets, depth + 1)
+        raise ValueError("no arm for " + state)
+    if k == "Macro" and e["name"] == "matches" and e.get("pat") is not None and e.get("args") and "gc_state" in q.show(e["args"][0]):
+        return state in [q.last_seg(h) for h in q.pat_heads(e["pat"])]
+    if k == "Block" and len(e["stmts"]) == 1 and e["stmts"][0]["k"] == "ExprStmt":
+        return state_eval(e["stmts"][0]["e"], state, lets, depth + 1)
+    raise ValueError(k)
+
+
 @rule("GC-ALLOC", ["C06", "C07"], "all object allocators colour the header from gc_state, register the object, shade it when marking and account its size")
 def gc_alloc(ctx, r):
     items = ctx.file_items(VM)
@@ -72,28 +112,34 @@ def gc_alloc(ctx, r):
                 continue  # static allocation: OWN-LEDGER
             n += 1
             key = f"vm.rs:{ty}::{f['name']}"
-            # (1) colour
+            # (1) colour: evaluate the `visited` expression in each collector state
             vis = next((fl["e"] for fl in hdr[0]["fields"] if fl["name"] == "visited"), None)
-            ok = False
-            if vis is not None and vis["k"] == "Match" and "gc_state" in q.show(vis["e"]):
-                tbl = {}
-                for a in vis["arms"]:
-                    for h in q.pat_heads(a["pat"]):
-                        tbl[q.last_seg(h)] = q.show(a["body"])
-                ok = tbl == {"Idle": "false", "Marking": "true", "Sweeping": "true"}
-            r.ob(ok, key + ":header-colour", VM, f["l"], f"{ty}::{f['name']}: a new object must be white when idle and black while marking or sweeping (header.visited = {q.show(vis) if vis else '?'})", sample=f"{ty}::{f['name']}: colour from gc_state")
+            lets = {b: x["init"] for x in q.walk(f["body"]) if x["k"] == "Local" and x.get("init") is not None for b in q.pat_bindings(x["pat"])}
+            try:
+                tbl = {st: state_eval(vis, st, lets) for st in GC_STATES} if vis is not None else None
+            except ValueError as e:
+                tbl = None
+                r.missing(key + ":header-colour:form", VM, f"colour expression not evaluable per collector state: {e}")
+            ok = tbl == {"Idle": False, "Marking": True, "Sweeping": True}
+            if tbl is not None:
+                r.ob(ok, key + ":header-colour", VM, f["l"], f"{ty}::{f['name']}: a new object must be white when idle and black while marking or sweeping; header.visited evaluates to {tbl} (an object born white during the sweep is freed by the sweep in progress while still referenced)", sample=f"{ty}::{f['name']}: colour per state {tbl}")
             nogc = next((q.show(fl["e"]) for fl in hdr[0]["fields"] if fl["name"] == "no_gc"), None)
             r.ob(nogc == "false", key + ":no_gc", VM, f["l"], f"{ty}::{f['name']}: a thread-heap object must not be exempt from collection (no_gc = {nogc})")
             # (2) registered
             reg = any(x["k"] == "MethodCall" and x["m"] == "push" and q.show(x["recv"]).endswith(".heap_list") for x in q.walk(f["body"]))
             r.ob(reg, key + ":not-registered", VM, f["l"], f"{ty}::{f['name']}: the object is not pushed to heap_list: it is never swept nor freed on drop")
-            # (3) shaded when marking
-            shade = False
+            # (3) shaded exactly while marking: evaluate the guard of the gray-stack push in each collector state
+            shade_tbl = None
             for x in q.walk(f["body"]):
-                if x["k"] == "If" and "gc_state" in q.show(x["c"]) and "Marking" in q.show(x["c"]) and "==" in q.show(x["c"]):
-                    if any(y["k"] == "MethodCall" and y["m"] == "push" and q.show(y["recv"]).endswith(".gray_stack") for y in q.walk(x["t"])):
-                        shade = True
-            r.ob(shade, key + ":not-shaded", VM, f["l"], f"{ty}::{f['name']}: an object allocated black during marking must be pushed on the gray stack so its (unbarriered) initial fields are scanned")
+                if x["k"] == "If" and any(y["k"] == "MethodCall" and y["m"] == "push" and q.show(y["recv"]).endswith(".gray_stack") for y in q.walk(x["t"])):
+                    try:
+                        shade_tbl = {st: state_eval(x["c"], st, lets) for st in GC_STATES}
+                    except ValueError as e:
+                        r.missing(key + ":not-shaded:form", VM, f"shading guard not evaluable: {e}")
+                        shade_tbl = "?"
+            if shade_tbl != "?":
+                r.ob(shade_tbl == {"Idle": False, "Marking": True, "Sweeping": False}, key + ":not-shaded", VM, f["l"],
+                     f"{ty}::{f['name']}: an object allocated black during marking must be pushed on the gray stack (exactly then) so its unbarriered initial fields are scanned; the push happens in states {shade_tbl}")
             # (4) accounting
             acc = {q.show(x["a"]).split(".")[-1] for x in q.walk(f["body"]) if x["k"] == "Binary" and x["op"] == "+="}
             r.ob({"heap_size", "gc_debt"} <= acc, key + ":accounting", VM, f["l"], f"{ty}::{f['name']}: must add the object's size to heap_size and gc_debt (adds to {sorted(acc)})", sample=f"{ty}::{f['name']}: registered, shaded, accounted")
